@@ -172,6 +172,7 @@ class ZWorld(object):
     self.raise_on = set(params.get('raise_on', ()))
     self.ncb = 0
     self.reader_results = []
+    self.loaded = None
     if params.get('parent_exists', True):
       self.zk.tree[PARENT] = (b'', 0)
     for m in params.get('initial', ()):
@@ -244,6 +245,12 @@ class ZWorld(object):
       return PARENT not in t
     if op[0] in ('read', 'iter1'):
       return self.ss is not None
+    if op[0] == 'load':
+      # (taken once the server set has announced everything that is there: the composition "snapshot, then notifications" has a window
+      # of its own - a member the snapshot saw and the notification worker never got to read - which C19 does not speak about)
+      return self.ss is not None and not self.zk.requests and not self.zk.channel
+    if op[0] == 'wait_loaded':
+      return self.loaded is not None
     return True
 
   def _mutate(self):
@@ -260,6 +267,13 @@ class ZWorld(object):
       zk.delete(PARENT)
     elif op[0] == 'create_parent':
       zk.create(PARENT, b'')
+    elif op[0] == 'load':
+      # what a balancer does: it takes GetServers() as its member list; joins and leaves then edit that list
+      def ld():
+        self.loaded = sorted(m.name for m in self.prov.GetServers())
+      gevent.spawn(ld)
+    elif op[0] == 'wait_loaded':
+      pass
     elif op[0] == 'iter1':
       # a consumer starts iterating over the server set, takes one member and keeps the (unfinished) iterator around
       def it1():
@@ -285,6 +299,16 @@ class ZWorld(object):
     if holding != present:
       self.v('C19.view', 'after all events were delivered the consumer holds %r but the members present are %r; callback log %r'
              % (holding, present, self.log), missing=sorted(set(present) - set(holding)), extra=sorted(set(holding) - set(present)))
+    if self.loaded is not None:
+      held = set(self.loaded)
+      for kind, name in self.log:
+        if kind == 'join':
+          held.add(name)
+        else:
+          held.discard(name)
+      if sorted(held) != present:
+        self.v('C19.view-after-load', 'a consumer that took GetServers() %r as its initial list and applied the callbacks %r holds %r, the members '
+               'present are %r (all children of the path: %r)' % (self.loaded, self.log, sorted(held), present, sorted(self.zk._children(PARENT))))
     from scales.loadbalancer.zookeeper import Member
     present_vals = set(Member.from_node(n, self.zk.tree[PARENT + '/' + n][0]) for n in present)
     if holding == present and self.vals != present_vals:
@@ -363,6 +387,9 @@ def scenarios(tier):
      {'initial': [M0, M1], 'script': [['iter1'], ['create', M2], ['delete', M0], ['create', M0], ['delete', M1]]}),
     ('a member goes away and comes back under the same name (it may vanish before it was read, and be back before the next listing)',
      {'script': [['create', M1], ['create', M0], ['delete', M0], ['create', M0], ['delete', M1]]}),
+    ('through ZooKeeperServerSetProvider, the consumer loads GetServers() first (as the balancers do); the path also has children that are not members',
+     {'via_provider': True, 'initial': [M0, 'other_5', M1],
+      'script': [['load'], ['wait_loaded'], ['create', 'other_6'], ['delete', M0], ['create', M2], ['delete', 'other_5'], ['delete', M1]]}),
     ('second reader lists members concurrently', {'initial': [M0], 'script': [['read'], ['create', M1], ['delete', M0], ['read'], ['create', M0]]}),
   ]
   if tier == 'thorough':
